@@ -98,9 +98,34 @@ fn trace_child(a: &HashMap<String, String>) -> i32 {
     let thorough = a["tier"] == "thorough";
     // keep panic messages of caught panics quiet
     std::panic::set_hook(Box::new(|_| {}));
+    // A call of the crate that never returns (a construction loop that stops making progress, a search that the
+    // hop limit of the hook does not see) must end the scenario, not the run: a watchdog thread ends this process
+    // when one scenario takes longer than the limit; the parent records that as a `crash` event of the scenario.
+    // The limit is far above what any scenario takes (the slowest, 66 000 patterns, needs seconds).
+    use std::sync::atomic::{AtomicU64, Ordering};
+    use std::sync::Arc;
+    let limit: u64 = std::env::var("VH_SCENARIO_TIMEOUT").ok().and_then(|x| x.parse().ok())
+        .unwrap_or(if std::env::var("VH_LIGHT").is_ok() { 7200 } else { 600 });
+    let current = Arc::new(AtomicU64::new(u64::MAX));
+    let started = Arc::new(AtomicU64::new(0));
+    let t0 = std::time::Instant::now();
+    {
+        let (current, started) = (current.clone(), started.clone());
+        std::thread::spawn(move || loop {
+            std::thread::sleep(std::time::Duration::from_secs(2));
+            let sc = current.load(Ordering::SeqCst);
+            if sc != u64::MAX && t0.elapsed().as_secs().saturating_sub(started.load(Ordering::SeqCst)) > limit {
+                eprintln!("watchdog: scenario {sc} still running after {limit} s: a call into the crate does not return (hang)");
+                std::process::exit(97);
+            }
+        });
+    }
     for i in from..to {
+        started.store(t0.elapsed().as_secs(), Ordering::SeqCst);
+        current.store(i, Ordering::SeqCst);
         trace::run_scenario(&mut t, &a["prop"], thorough, seed, i);
     }
+    current.store(u64::MAX, Ordering::SeqCst);
     0
 }
 
